@@ -141,3 +141,18 @@ Definition same_usage_presence (a b : list frow) : Prop :=
 (* successor of an entry in an index *)
 Definition next_in (idx : list Z) (lo : Z) (hi : option Z) : Prop :=
   exists pre rest, idx = pre ++ lo :: rest /\ hi = match rest with h :: _ => Some h | [] => None end.
+
+(* ------------------------------------------------------------------ CalTRACK hourly from_series: the clock the rows are
+   labelled on (hour of week and month are read from the local fields of the data object's index).
+   Zones are identifiers, 0 = UTC.  UnionToUtc is the code as it is: merge_features unions two differently-zoned indexes
+   into UTC, and with meter_data = None the placeholder meter is a copy of the temperature series (its zone).
+   WeatherClock is the proposed repair (C05-6.diff). *)
+Inductive zone_policy := UnionToUtc | WeatherClock.
+Definition index_zone (zp : zone_policy) (meter_zone : option Z) (weather_zone : Z) : Z :=
+  match zp with
+  | WeatherClock => weather_zone
+  | UnionToUtc => match meter_zone with
+                  | None => weather_zone
+                  | Some mz => if mz =? weather_zone then mz else 0
+                  end
+  end.
